@@ -245,7 +245,8 @@ def reuse_scheme_cases(dss, configs, schemes, rng, flags=(1,), every=None, env="
             if k % stride:
                 continue
             B, T, u = schemes[(k + ci) % len(schemes)]
-            sch0 = ([2 * b for b in B], [2 * t for t in T], u) if k % 3 else schemes[(k + ci + 1) % len(schemes)]
+            sch0 = [([2 * b for b in B], [2 * t for t in T], u), (list(B), list(T), u * 4096),
+                    schemes[(k + ci + 1) % len(schemes)]][k % 3]
             for f in flags:
                 if cfg == "ExactCplex(opt)" and f == 0:
                     continue
@@ -382,3 +383,52 @@ def tied_heavy_dataset(rng, with_empty=True):
     U = grids.universe(D)
     ren = {e: k + 1 for k, e in enumerate(U)}
     return [[sorted(ren[e] for e in b) for b in r] for r in D]
+
+
+def _flat_positions(D):
+    """flattened positions matrix as the library lays it out (ids by first appearance, ints iterate in increasing
+    order inside a bucket): only used to PICK pairs of datasets, never as an expected value"""
+    ids = {}
+    for r in D:
+        for b in r:
+            for e in sorted(b):
+                ids.setdefault(e, len(ids))
+    n, m = len(ids), len(D)
+    mat = [[-1] * m for _ in range(n)]
+    for j, r in enumerate(D):
+        pos = 0
+        for b in r:
+            for e in b:
+                mat[ids[e]][j] = pos
+            pos += len(b)
+    return (n, m), tuple(x for row in mat for x in row)
+
+
+def transposed_pairs(limit=400):
+    """pairs of datasets of different shapes (2 elements x 3 rankings, 3 elements x 2 rankings, ...) whose positions
+    matrices have the same flattened content: a cache keyed by the content without the shape confuses them"""
+    groups = {}
+    for D in grids.datasets(2, 3) + grids.datasets(3, 2):
+        shape, flat = _flat_positions(D)
+        groups.setdefault(flat, {}).setdefault(shape, D)
+    out = []
+    for flat, by_shape in sorted(groups.items()):
+        shapes = sorted(by_shape)
+        for a in shapes:
+            for b in shapes:
+                if a != b:
+                    out.append((by_shape[a], by_shape[b]))
+    return out[:limit]
+
+
+def pair_sequence_cases(pairs, configs, schemes, flags=(1,)):
+    """the first dataset of each pair is served first (same algorithm object, same scheme), the second is measured"""
+    out = []
+    for ci, cfg in enumerate(configs):
+        for k, (A, B) in enumerate(pairs):
+            s = schemes[(k + ci) % len(schemes)]
+            for f in flags:
+                out.append({"D": B, "naming": "ints", "sch": list(s), "cfg": cfg, "flag": f,
+                            "env": "standin" if cfg in algorun.NEEDS_CPLEX else "nocplex", "kseed": k, "entry": 0,
+                            "reuse": {"kind": "other", "D0": A, "sch0": list(s)}})
+    return out
